@@ -55,7 +55,10 @@ def split_call(t):
     m = re.match(r"(_\d+|\(\*_\d+\)|\([^=]+?\)) = ", t)
     if not m:
         return None
-    arrow = t.find(") -> ")
+    # the terminator's own arrow is the last one (generic arguments may contain `fn(A) -> B`)
+    arrow = t.rfind(") -> [")
+    if arrow < 0:
+        arrow = t.rfind(") -> ")
     if arrow < 0:
         return None
     body = t[m.end():arrow + 1]
